@@ -738,6 +738,17 @@ def main():
         text = "\n".join("%d %s" % d for d in sorted(agg["digests"]))
         print("BATCH-DIGEST %s" % hashlib.sha256(text.encode()).hexdigest())
         sys.exit(0)
+    def reproduces(path):
+        import json as _json
+        with open(path, encoding="utf-8") as fhnd:
+            payload = _json.load(fhnd)
+        if payload.get("mode") == "session":
+            return payload["violation_class"] in \
+                replay_session_history(payload)[0]
+        return payload["violation_class"] in classes_of(
+            payload["recipe"], payload["faults"])[0]
+
+    regressed = driver.run_regressions(PROP, reproduces)
     known = driver.known_for(PROP)
     reported = {}
     known_hits = {}
@@ -753,6 +764,11 @@ def main():
     for entry in known_hits.values():
         print("KNOWN-FINDING: property=%s %s" % (PROP, entry["what"]))
     replay_paths = []
+    for path in regressed:
+        print("VIOLATION property=%s replay=%s" % (PROP, path))
+        print("  a defect recorded as fixed in known_findings.json is back")
+        replay_paths.append(path)
+        exit_code = 1
     for viol in reported.values():
         path, _payload = write_violation(viol)
         replay_paths.append(path)
@@ -810,6 +826,8 @@ def main():
             "components": driver.REAL_AND_STUB,
             "repo": driver.repo_state(),
             "known_findings_matched": sorted(known_hits),
+            "regression_replays_run": len(driver.regression_files(PROP)),
+            "regression_replays_reproduced": len(regressed),
             "replays": replay_paths,
         }
         driver.write_evidence(
@@ -821,7 +839,7 @@ def main():
              "shutil.copy2 is modelled as open-src, open+truncate-dst, "
              "chunked copy, copystat (CPython's order)",
              "no second process races the tool on the same files"],
-            wall, len(reported))
+            wall, len(reported) + len(regressed))
     sys.exit(exit_code)
 
 
